@@ -47,6 +47,7 @@ type Term struct {
 	P1   int    // extract hi / ext amount
 	P2   int    // extract lo
 	id   int32
+	Args2 *Term // rangestore: the stored value (Args = base, lo, hi)
 }
 
 func (t *Term) W() int { return int(t.S.W) }
@@ -59,6 +60,7 @@ type tkey struct {
 	p1, p2     int32
 	n          int8
 	a0, a1, a2 int32
+	x          int32
 }
 
 const nShards = 256
@@ -86,6 +88,9 @@ func TermCount() int { return int(atomic.LoadInt32(&termCnt)) }
 
 func mk(t *Term) *Term {
 	k := tkey{op: t.Op, s: t.S, c: t.C, name: t.Name, p1: int32(t.P1), p2: int32(t.P2), n: int8(len(t.Args))}
+	if t.Args2 != nil {
+		k.x = t.Args2.id
+	}
 	h := uint64(len(t.Op))*131 + t.C*31 + uint64(t.P1)*7 + uint64(t.P2)
 	if len(t.Op) > 0 {
 		h = h*131 + uint64(t.Op[len(t.Op)-1])
@@ -742,7 +747,19 @@ func Concat(hi, lo *Term) *Term {
 	return mk(&Term{Op: "concat", S: BV(hi.W() + lo.W()), Args: []*Term{hi, lo}})
 }
 func Select(a, i *Term) *Term {
-	for a.Op == "store" {
+	for a.Op == "store" || a.Op == "rangestore" {
+		if a.Op == "rangestore" {
+			lo, hi := a.Args[1].C, a.Args[2].C
+			if i.Op == "c" {
+				if i.C >= lo && i.C <= hi {
+					return a.Args2
+				}
+				a = a.Args[0]
+				continue
+			}
+			in := And(Cmp("bvule", a.Args[1], i), Cmp("bvule", i, a.Args[2]))
+			return Ite(in, a.Args2, Select(a.Args[0], i))
+		}
 		si := a.Args[1]
 		if si == i {
 			return a.Args[2]
@@ -772,12 +789,15 @@ func Select(a, i *Term) *Term {
 var constChainCache sync.Map // term id -> *constChain (nil entry = not a constant chain)
 
 type constChain struct {
-	runs []ccRun // sorted by start; value of index x = run with largest start <= x
-	ew   int
+	runs    []ccRun // sorted by start; value of index x = run with largest start <= x
+	ew      int
+	baseArr *Term
 }
 type ccRun struct {
 	start uint64
 	val   uint64
+	t     *Term // non-constant stored value
+	base  bool  // reads the base array
 }
 
 func selectConstChain(a, i *Term) *Term {
@@ -798,7 +818,17 @@ func selectConstChain(a, i *Term) *Term {
 	var build func(lo, hi int) *Term
 	build = func(lo, hi int) *Term {
 		if lo == hi {
-			return Const(cc.ew, cc.runs[lo].val)
+			r := cc.runs[lo]
+			if r.t != nil {
+				return r.t
+			}
+			if r.base {
+				if cc.baseArr.Op == "store" {
+					return mk(&Term{Op: "select", S: BV(cc.ew), Args: []*Term{cc.baseArr, i}})
+				}
+				return Select(cc.baseArr, i)
+			}
+			return Const(cc.ew, r.val)
 		}
 		mid := (lo + hi + 1) / 2
 		return Ite(Cmp("bvult", i, c64(cc.runs[mid].start)), build(lo, mid-1), build(mid, hi))
@@ -806,50 +836,72 @@ func selectConstChain(a, i *Term) *Term {
 	return build(0, len(cc.runs)-1)
 }
 
+// buildConstChain analyses store(...store(B, c1, v1)..., cn, vn) with constant indices: the indices
+// are grouped into runs of equal value; indices not stored to read the base B (a constant array or
+// any other array term).
 func buildConstChain(a *Term) *constChain {
-	vals := map[uint64]uint64{}
+	vals := map[uint64]*Term{}
 	n := 0
 	t := a
-	for t.Op == "store" {
-		if t.Args[1].Op != "c" || t.Args[2].Op != "c" {
-			return nil
-		}
+	for t.Op == "store" && t.Args[1].Op == "c" {
 		if _, ok := vals[t.Args[1].C]; !ok {
-			vals[t.Args[1].C] = t.Args[2].C
+			vals[t.Args[1].C] = t.Args[2]
 		}
 		t = t.Args[0]
 		n++
 	}
-	if t.Op != "constarr" || t.Args[0].Op != "c" || n < 16 {
+	if n < 16 {
 		return nil
 	}
-	def := t.Args[0].C
+	cc := &constChain{ew: int(a.S.AW), baseArr: t}
+	var defT *Term
+	if t.Op == "constarr" {
+		defT = t.Args[0]
+	}
 	keys := make([]uint64, 0, len(vals))
 	for k := range vals {
 		keys = append(keys, k)
 	}
 	sort.Slice(keys, func(x, y int) bool { return keys[x] < keys[y] })
-	cc := &constChain{ew: int(a.S.AW)}
-	cur := def
-	cc.runs = append(cc.runs, ccRun{0, def})
+	mkRun := func(start uint64, v *Term) ccRun {
+		if v == nil {
+			if defT != nil {
+				if defT.Op == "c" {
+					return ccRun{start: start, val: defT.C}
+				}
+				return ccRun{start: start, t: defT}
+			}
+			return ccRun{start: start, base: true}
+		}
+		if v.Op == "c" {
+			return ccRun{start: start, val: v.C}
+		}
+		return ccRun{start: start, t: v}
+	}
+	same := func(r ccRun, v *Term) bool {
+		x := mkRun(0, v)
+		return r.val == x.val && r.t == x.t && r.base == x.base
+	}
+	cc.runs = append(cc.runs, mkRun(0, nil))
 	next := uint64(0)
 	for _, k := range keys {
-		if k > next && cur != def {
-			cc.runs = append(cc.runs, ccRun{next, def})
-			cur = def
+		if k > next && !same(cc.runs[len(cc.runs)-1], nil) {
+			cc.runs = append(cc.runs, mkRun(next, nil))
 		}
-		if vals[k] != cur {
+		if !same(cc.runs[len(cc.runs)-1], vals[k]) {
 			if k == 0 {
-				cc.runs[0].val = vals[k]
+				cc.runs[0] = mkRun(0, vals[k])
 			} else {
-				cc.runs = append(cc.runs, ccRun{k, vals[k]})
+				cc.runs = append(cc.runs, mkRun(k, vals[k]))
 			}
-			cur = vals[k]
 		}
 		next = k + 1
 	}
-	if cur != def && next != 0 {
-		cc.runs = append(cc.runs, ccRun{next, def})
+	if next != 0 && !same(cc.runs[len(cc.runs)-1], nil) {
+		cc.runs = append(cc.runs, mkRun(next, nil))
+	}
+	if len(cc.runs) > 200 {
+		return nil
 	}
 	return cc
 }
@@ -861,12 +913,18 @@ func Store(a, i, v *Term) *Term {
 	}
 	return mk(&Term{Op: "store", S: a.S, Args: []*Term{a, i, v}})
 }
+// RangeStore: base with indices lo..hi (constants, inclusive) all set to v.
+func RangeStore(base *Term, lo, hi uint64, v *Term) *Term {
+	return mk(&Term{Op: "rangestore", S: base.S, Args: []*Term{base, c64(lo), c64(hi)}, Args2: v})
+}
+
 func ConstArr(ew int, v *Term) *Term {
 	return mk(&Term{Op: "constarr", S: Arr(ew), Args: []*Term{v}})
 }
 
 // ---- SMT printing: every shared node gets a define-fun
 type printer struct {
+	expandRange bool
 	sb       *strings.Builder
 	named    map[int32]string
 	decl     map[string]bool
@@ -902,6 +960,20 @@ func (p *printer) ref(t *Term) string {
 		s = fmt.Sprintf("((_ sign_extend %d) %s)", t.P1, p.ref(t.Args[0]))
 	case "constarr", "constarr2":
 		s = fmt.Sprintf("((as const %s) %s)", t.S.smt(), p.ref(t.Args[0]))
+	case "rangestore":
+		if p.expandRange {
+			cur := p.ref(t.Args[0])
+			v := p.ref(t.Args2)
+			for k := t.Args[1].C; k <= t.Args[2].C; k++ {
+				n := fmt.Sprintf("t%d_%d", t.id, k)
+				fmt.Fprintf(p.sb, "(define-fun %s () %s (store %s (_ bv%d 64) %s))\n", n, t.S.smt(), cur, k, v)
+				cur = n
+			}
+			p.named[t.id] = cur
+			return cur
+		}
+		s = fmt.Sprintf("(lambda ((li (_ BitVec 64))) (ite (and (bvule %s li) (bvule li %s)) %s (select %s li)))",
+			p.ref(t.Args[1]), p.ref(t.Args[2]), p.ref(t.Args2), p.ref(t.Args[0]))
 	default:
 		parts := make([]string, 0, 4)
 		parts = append(parts, t.Op)
